@@ -226,11 +226,106 @@ def _exprability(s):
         as_stmt = len(m.body) == 1 and isinstance(m.body[0], ast.Expr)
     except (SyntaxError, ValueError, MemoryError, RecursionError):
         pass
+    # H4: the grammar accepts text that the compiler then rejects ("*1", "(yield)", "lambda x, x: 1"): that cannot be
+    # evaluated either.  A reading counts only if compile() to code succeeds; when the compiler gives up with something
+    # other than a SyntaxError (RecursionError on deep text) either behaviour is accepted.
+    unsure = False
+    if as_eval:
+        c = _code_stage(s.strip(" \t"), "eval")
+        as_eval, unsure = c is True, unsure or c is None
+    if as_stmt:
+        c = _code_stage(src, "exec")
+        as_stmt, unsure = c is True, unsure or c is None
     if as_eval and as_stmt:
         return "yes"
-    if not as_eval and not as_stmt:
+    if not as_eval and not as_stmt and not unsure:
         return "no"
     return "maybe"
+
+
+def _code_stage(src, mode):
+    """True: compile() produces code; False: SyntaxError; None: the compiler gave up otherwise."""
+    try:
+        compile(src, "<c15>", mode, dont_inherit=True)
+        return True
+    except SyntaxError:
+        return False
+    except Exception:
+        return None
+
+
+_CR = {}
+
+
+def compile_rejected(s):
+    """Independent of pyflyby: the text parses as a single expression but compile() rejects it with a SyntaxError."""
+    if s not in _CR:
+        with warnings.catch_warnings():
+            warnings.simplefilter("ignore")
+            _CR[s] = _compile_rejected(s)
+    return _CR[s]
+
+
+def _compile_rejected(s):
+    if len(s) > 400 or is_blank(s):
+        return False
+    for src, mode in ((s.strip(" \t"), "eval"), (textwrap.dedent(s) + "\n", "exec")):
+        try:
+            tree = ast.parse(src, mode=mode)
+        except Exception:
+            continue
+        if mode == "exec" and not (len(tree.body) == 1 and isinstance(tree.body[0], ast.Expr)):
+            continue
+        if _code_stage(src, mode) is False:
+            return True
+    return False
+
+
+_VARIANTS = {}
+
+
+def tree_variants():
+    """Which of the repairs H1-H4 does the tree under test have?  Probed once per process on the real code (one tiny
+    call each); the Lean model follows (K), the oracle never looks at it."""
+    import pyflyby
+    from pyflyby import _py
+    key = pyflyby.__file__
+    if key in _VARIANTS:
+        return _VARIANTS[key]
+
+    class Ns:
+        globals = {}
+
+        def auto_import(self, arg):
+            return True
+
+        def auto_eval(self, block, **kw):
+            return Evaluated(str(block))
+    spec = _py._get_argspec(lambda *a, **k: None)
+    v = {}
+    try:
+        _, kw = _py._parse_auto_apply_args(spec, ["--x=", "5"], Ns(), arg_mode="string")
+        v["eq_value"] = kw.get("x") == ""
+    except Exception:
+        v["eq_value"] = False
+    try:
+        v["compile_first"] = _py.UserExpr("lambda x, x: 1", Ns(), "auto").value == "lambda x, x: 1"
+    except Exception:
+        v["compile_first"] = False
+    try:
+        _, kw = _py._parse_auto_apply_args(spec, ["--zeta=1", "--alpha=2"], Ns(), arg_mode="string")
+        v["kw_order"] = list(kw) == ["zeta", "alpha"]
+    except Exception:
+        v["kw_order"] = False
+    _VARIANTS[key] = v        # (before the map probe: it runs a case)
+    case = dict(kind="apply", ckind="function", route="map", mode="string", stdin="", items=None, map_literal=False,
+                sig=dict(args=[], ndefaults=0, varargs="rest", kwonly=[], kwdefaults=[], varkw=None),
+                map_dd=1, map_args=["a", "b"], argv=["a", "--", "b"], gopts=["--safe"], form=["--map", G.TARGET_NAME])
+    try:
+        v["map_dd"] = len(PROP._run_apply(case, probe=True)["calls"]) == 2
+    except Exception:
+        v["map_dd"] = False
+    return v
 
 
 def compile_raises(s):
@@ -319,6 +414,7 @@ class C15(Prop):
         "C15_global_opts_suffix", "C15_safe_sets_string",
         "scan_items", "resolve_agree", "dget_dictOf", "evalExpr_user", "evalExpr_auto_raw_reason",
         "evalExpr_auto_compile_raises", "evalExpr_auto_unparsable",
+        "witness_H2_swallows", "witness_H2_last", "witness_H2_fixed", "C15_eq_value",
     ]]
     anchors = [
         ("lib/python/pyflyby/_py.py", "_parse_auto_apply_args"),
@@ -369,8 +465,12 @@ class C15(Prop):
                    "kwonlyargs (WF); positional-only parameters are outside the property's quantifier",
                    "C15_binding at full strength needs fixes/C15-D16.diff (exactFirst); for the tree as it stands "
                    "C15_binding_partial assumes no option names a parameter that is a proper prefix of another (D16)",
-                   "`--name=` with an empty value is the `--name value` form (as coded); a later --args=... overrides "
-                   "--safe (last mode option wins)"]
+                   "a later --args=... overrides --safe (last mode option wins)",
+                   "four listed findings with proposed repairs (H1 --map with a non-leading `--`, H2 `--name=` with an "
+                   "empty value, H3 **kwargs order, H4 compiler-rejected expressions in automatic mode): the model "
+                   "variant (Env.eqValue, the compileRaises table, the --map desugaring) follows the tree under test "
+                   "by four one-call probes (c15.tree_variants); the oracle never looks at them; the order of **kwargs "
+                   "is judged by the oracle only (not modelled)"]
 
     # -- generation ----------------------------------------------------------
     def gen_case(self, rng, i, tier):
@@ -414,6 +514,10 @@ class C15(Prop):
     def exhaustive_cases(self, tier, rng):
         out = G.small_scope(tier, rng)
         out.extend(G.hostile_scope(tier, rng))
+        for case in G.defects_scope(tier, rng):
+            case.setdefault("unimportable", [])
+            case.setdefault("evalerr", [])
+            out.append(self._real_tables(case))
         for case in G.apply_scope(tier, rng):
             case.setdefault("unimportable", [])
             case.setdefault("evalerr", [])
@@ -459,7 +563,7 @@ class C15(Prop):
                     pool.append(s2)
             # expressions over names that nothing defines and nothing can import: evaluation is impossible as well
             cls._auto_pool = pool + cls.HARMLESS_EVALUABLE + [u for u in G.REAL_UNIMPORTABLE if "os." not in u
-                                                              and "sys." not in u]
+                                                              and "sys." not in u] + G.COMPILE_REJECTED_CLOSED[:6]
         return cls._auto_pool
 
     def _gen_subproc_auto(self, rng, i):
@@ -723,7 +827,7 @@ class C15(Prop):
                 obs["msg"] = (p.stderr[-300:] + p.stdout[-200:])
         return obs
 
-    def _run_apply(self, case):
+    def _run_apply(self, case, probe=False):
         """The whole delivery in-process: auto_apply directly, or _PyMain (global options, then --apply / the
         `py f args...` heuristic / --map) onto a real callable of the case's kind, with the tagging stub namespace;
         the callable records what it received."""
@@ -799,6 +903,8 @@ class C15(Prop):
             _py._enable_postmortem_debugger = saved_pm
             logger.set_level(saved_level)
         obs["calls"] = [canon_bound(sig, b) for b in rec]
+        if sig["varkw"]:
+            obs["kworders"] = [list(b.get(sig["varkw"], {})) for b in rec]
         if "exit" in obs and "err" not in obs:
             code, etext, otext = obs["exit"], errf.getvalue(), out.getvalue()
             err = None
@@ -817,11 +923,19 @@ class C15(Prop):
                     if code == 1 and last and last[0].startswith("TypeError:") and "Traceback" in etext:
                         err = "callTypeError"         # the call itself refused the arguments
                         obs["msg"] = last[0][:200]
+                    elif code == 1 and real and last and last[0].startswith("SyntaxError:") and "Traceback" in etext:
+                        # the real evaluator: compile() of an argument raised inside auto_eval, which reports the
+                        # exception itself (traceback, exit 1) instead of the ParseError "Error parsing value ..."
+                        err = "evalError"
+                        obs["msg"] = last[0][:200]
                     else:
                         err = "exc:exit%s" % (code,)
                         obs["msg"] = (etext[-300:] + otext[-100:])
             obs["err"] = err
         obs["log"] = log
+        if probe:
+            return obs
+        obs["variants"] = tree_variants()
         if case["mode"] != "string":
             obs.update(self._parse_tables(case))
         return obs
@@ -839,7 +953,22 @@ class C15(Prop):
                     par.append(s)
             except Exception:
                 pass
-        return dict(parsable=par, compile_raises=[s for s in cands if compile_raises(s)])
+        return dict(parsable=par, compile_raises=[s for s in cands if compile_raises(s)],
+                    compile_fails=self._compile_fails(par))
+
+    @staticmethod
+    def _compile_fails(par):
+        """Of the strings pyflyby's parser takes as an expression: those on which PythonBlock.compile() raises (a
+        parameter of the model like `parsable`: Env.compileRaises on a tree with fixes/C15-H4.diff)."""
+        from pyflyby import _py
+        from pyflyby._parse import PythonBlock
+        out = []
+        for s in par:
+            try:
+                PythonBlock(s, flags=_py.FLAGS).compile()
+            except Exception:
+                out.append(s)
+        return out
 
     def _run_parse(self, case):
         from pyflyby import _py
@@ -872,7 +1001,10 @@ class C15(Prop):
                                        for i, v in enumerate(args)],
                                  kwargs=sorted([k, canon_param(sig, k, v)] for k, v in kwargs.items()))
                 try:
-                    obs["call"] = canon_bound(sig, f(*args, **kwargs))
+                    received = f(*args, **kwargs)
+                    obs["call"] = canon_bound(sig, received)
+                    if sig["varkw"]:
+                        obs["kworder"] = list(received.get(sig["varkw"], {}))
                 except TypeError as e:
                     obs["call_err"] = str(e)[:200]
             except _py.ParseError as e:
@@ -888,6 +1020,7 @@ class C15(Prop):
         finally:
             sys.stdin = old_stdin
         obs["log"] = log
+        obs["variants"] = tree_variants()
         if case["mode"] != "string":
             from pyflyby._parse import PythonBlock
             par = []
@@ -899,6 +1032,7 @@ class C15(Prop):
                     pass
             obs["parsable"] = par
             obs["compile_raises"] = [s for s in sorted(set(self._candidate_strings(case))) if compile_raises(s)]
+            obs["compile_fails"] = self._compile_fails(par)
         return obs
 
     # -- oracle --------------------------------------------------------------
@@ -1006,19 +1140,37 @@ class C15(Prop):
             if not self._accept(want.get(k), got.get(k)):
                 fails.append(dict(what="binding differs from the equivalent Python call", param=k,
                                   got=got.get(k), want=want.get(k), **brief))
+        order = self._expected_kworder(case, view=view) if not opaque else None
+        if not fails and order is not None and obs.get("kworders") and obs["kworders"][0] != order:
+            fails.append(dict(what=self.KWORDER_WHAT, got=obs["kworders"][0], want=order, **brief))
         return fails[:3]
 
     @staticmethod
-    def _map_pseudo(case, s):
-        items = [["dd", [s]]] if case["map_literal"] else [["pos", s]]
+    def _map_pseudo(case, s, literal=None):
+        if literal is None:
+            literal = case["map_literal"]
+        items = [["dd", [s]]] if literal else [["pos", s]]
         return dict(case, items=items, argv=G.render(items))
+
+    @staticmethod
+    def _map_model_argvs(case, fixed):
+        """The argv of each `apply` that --map performs.  Tree as it stands: `--` is the separator only as the first
+        argument, elsewhere it is one more argument (a call without arguments) and what follows is read in the
+        current mode; with fixes/C15-H1.diff everything after the first `--` is literal."""
+        argv = list(case["argv"])
+        if argv and argv[0] == "--":
+            return [["--", a] for a in argv[1:]]
+        if not fixed or "--" not in argv:
+            return [[a] for a in argv]
+        i = argv.index("--")
+        return [[a] for a in argv[:i]] + [["--", a] for a in argv[i + 1:]]
 
     def _oracle_apply_map(self, case, obs, view, brief):
         """`py --map f a b c` is f(a); f(b); f(c), each argument read in the current mode; `--map f -- a b c` the same
         with the exact strings."""
         calls, err = obs["calls"], obs.get("err")
-        for i, s in enumerate(case["map_args"]):
-            exp = self._expected(self._map_pseudo(case, s), view=view)
+        for i, (s, literal) in enumerate(G.map_steps(case)):
+            exp = self._expected(self._map_pseudo(case, s, literal), view=view)
             if exp is None:
                 return []
             problems, optional, want = exp
@@ -1158,6 +1310,9 @@ class C15(Prop):
             if not self._accept(want.get(k), got.get(k)):
                 fails.append(dict(what="binding differs from the equivalent Python call", param=k,
                                   got=got.get(k), want=want.get(k), **brief))
+        order = self._expected_kworder(case)
+        if not fails and order is not None and "kworder" in obs and obs["kworder"] != order:
+            fails.append(dict(what=self.KWORDER_WHAT, got=obs["kworder"], want=order, **brief))
         return fails[:3]
 
     @staticmethod
@@ -1189,6 +1344,26 @@ class C15(Prop):
         if len(c) > 1:
             return "!ambiguous"
         return name if sig["varkw"] else "!unknownOption"
+
+    def _expected_kworder(self, case, view=None):
+        """H3: the names collected by **kw in the order of the equivalent Python keyword call (PEP 468), or None when
+        that is not defined (an extra name typed twice) / the command line is outside the documented forms."""
+        view = view or case["sig"]
+        if not view["varkw"] or case.get("items") is None:
+            return None
+        order = []
+        for it in case["items"]:
+            if it[0] == "opt":
+                t = self._resolve(view, it[2].replace("-", "_"))
+                if t.startswith("!"):
+                    return None
+                if t not in G.sig_names(view):
+                    if t in order:
+                        return None
+                    order.append(t)
+        return order
+
+    KWORDER_WHAT = "options collected by ** arrive in another order than in the equivalent Python keyword call"
 
     def _exact_prefix_names(self, case):
         names = list(case["sig"]["args"]) + list(case["sig"]["kwonly"])
@@ -1268,8 +1443,7 @@ class C15(Prop):
                 name = typed.replace("-", "_")
                 if not py_is_identifier(name):
                     return None
-                if form.endswith("=v") and value == "":
-                    return None
+                # (H2: `--name=` with nothing after the `=` is the form --name=value with the empty string)
                 if form.endswith(" v") and (value.startswith("--")):
                     return None
                 target = self._resolve(view, name)
@@ -1351,6 +1525,15 @@ class C15(Prop):
         return cls._d16_fixed
 
     @staticmethod
+    def _craises(obs, var):
+        """Env.compileRaises: text on which compile() gives up — at the parsing stage with something other than a
+        SyntaxError (every tree), and on a tree with fixes/C15-H4.diff also at the code stage with anything."""
+        out = list(obs.get("compile_raises", []))
+        if var.get("compile_first"):
+            out += [x for x in obs.get("compile_fails", []) if x not in out]
+        return out
+
+    @staticmethod
     def _spec_json(sig):
         return dict(args=sig["args"], ndefaults=sig["ndefaults"], varargs=bool(sig["varargs"]), kwonly=sig["kwonly"],
                     kwdefaults=sig["kwdefaults"], varkw=bool(sig["varkw"]))
@@ -1427,24 +1610,32 @@ class C15(Prop):
                         n = body.partition("=")[0].replace("-", "_")
                         if not n.isascii() and py_is_identifier(n):
                             idents.add(n)
+            var = obs.get("variants") or {}
             return [_map_obj(dict(op="parse", spec=self._spec_json(case["sig"]), argv=case["argv"],
                                   stdin=case.get("stdin", ""), mode=case["mode"], idents=sorted(idents),
-                                  parsable=obs.get("parsable", []), compileRaises=obs.get("compile_raises", []),
+                                  parsable=obs.get("parsable", []), compileRaises=self._craises(obs, var),
                                   unimportable=case.get("unimportable", []), evalerr=case.get("evalerr", []),
-                                  exactFirst=self.d16_fixed()), _enc_str)]
+                                  exactFirst=self.d16_fixed(), eqValue=bool(var.get("eq_value"))), _enc_str)]
         if kind == "apply":
             # auto_apply on a callable = _parse_auto_apply_args on what `py` can see of its parameters (the signature
             # without the bound first parameter, or (*args, **kwargs) for a callable it cannot look into), then the
             # call; the harness states that view itself (it does not ask _get_argspec)
             view = self._apply_view(case)
+            var = obs.get("variants") or {}
             argvs = [case["argv"]]
             if case["route"] == "map":
-                argvs = [self._map_pseudo(case, s)["argv"] for s in case["map_args"]]
+                argvs = self._map_model_argvs(case, bool(var.get("map_dd")))
+            evalerr = list(case.get("evalerr", []))
+            if case.get("ns") == "real" and not var.get("compile_first"):
+                # tree without fixes/C15-H4.diff, real evaluator: compile() raises inside auto_eval -> the call is
+                # rejected (after the import check: an unimportable name still gives the string)
+                evalerr += [x for x in obs.get("compile_fails", []) if x not in case.get("unimportable", [])]
             return [_map_obj(dict(op="parse", spec=self._spec_json(view), argv=av, stdin=case.get("stdin", ""),
                                   mode=case["mode"], idents=self._nonascii_idents(av),
-                                  parsable=obs.get("parsable", []), compileRaises=obs.get("compile_raises", []),
-                                  unimportable=case.get("unimportable", []), evalerr=case.get("evalerr", []),
-                                  exactFirst=self.d16_fixed()), _enc_str) for av in argvs]
+                                  parsable=obs.get("parsable", []), compileRaises=self._craises(obs, var),
+                                  unimportable=case.get("unimportable", []), evalerr=evalerr,
+                                  exactFirst=self.d16_fixed(), eqValue=bool(var.get("eq_value"))), _enc_str)
+                    for av in argvs]
         if kind == "bind":
             return [dict(op="bind", spec=self._spec_json(case["sig"]), pos=["p%d" % i for i in range(case["npos"])],
                          kw=case["kw"])]
@@ -1550,7 +1741,51 @@ class C15(Prop):
         return (failure.get("what") == "option naming a parameter exactly rejected as ambiguous"
                 and bool(failure.get("names")))
 
-    families = {"exact_name_is_prefix_of_another_parameter": _fam_d16}
+    _STRUCT_WHATS = ("valid command line rejected", "binding differs from the equivalent Python call",
+                     "command line accepted although it must be rejected", "rejected for a reason that is not present")
+
+    def _fam_h1(case, failure):
+        """--map with the `--` after at least one argument"""
+        return (case.get("kind") == "apply" and case.get("route") == "map" and (G.map_dd(case) or 0) > 0
+                and failure.get("what") in ("--map: an argument did not reach the function",
+                                            "--map: more calls than arguments", "valid command line rejected",
+                                            "binding differs from the equivalent Python call",
+                                            "the function was called more than once"))
+
+    def _fam_h2(case, failure):
+        """an option written --name= / -name= with nothing after the `=`, judged by the equivalent-call clauses"""
+        return (failure.get("what") in C15._STRUCT_WHATS
+                and any(it[0] == "opt" and it[1].endswith("=v") and it[3] == "" for it in case.get("items") or []))
+
+    def _fam_h3(case, failure):
+        return failure.get("what") == C15.KWORDER_WHAT and sorted(failure.get("got") or []) == sorted(failure.get("want") or [])
+
+    def _fam_h4(case, failure):
+        """automatic mode, an argument the grammar accepts and the compiler rejects: evaluated by the stub / traceback
+        with the real evaluator, instead of arriving as the string"""
+        if case.get("mode") != "auto":
+            return False
+        rej = [x for x in C15._candidate_strings(case) if compile_rejected(x)]
+        if not rej:
+            return False
+        what = failure.get("what")
+        if what == "binding differs from the equivalent Python call":
+            got = failure.get("got")
+            flat = [got] if got and isinstance(got[0], str) else [(g[1] if isinstance(g[0], str) and len(g) == 2 and
+                                                                   isinstance(g[1], list) else g) for g in (got or [])]
+            return any(g[0] == "eval" and g[1] in rej for g in flat if g)
+        if what in ("valid command line rejected", "unexpected exception while applying the function",
+                    "--map: an argument did not reach the function", "rejected for a reason that is not present"):
+            msg = failure.get("msg") or ""
+            # (the stub evaluator told to raise on that very string: it must not have been reached at all)
+            return "SyntaxError" in msg or ("stub: evaluation error" in msg and any(x in msg for x in rej))
+        return False
+
+    families = {"exact_name_is_prefix_of_another_parameter": _fam_d16,
+                "map_dashdash_not_first": _fam_h1,
+                "option_with_empty_value_after_equals": _fam_h2,
+                "starstar_kwargs_reordered": _fam_h3,
+                "auto_mode_compiler_rejects_expression": _fam_h4}
 
 
 PROP = C15()
